@@ -42,6 +42,25 @@ Definition display (classify : bool) (r : row) : bytes :=
   end.
 Definition plain_output (classify : bool) (rs : list row) : bytes :=
   concat (map (fun r => display classify r ++ [x0a]) rs).
+(* -q / --hide-control-chars: hide_control_chars maps every char with char::is_control() (U+0000..U+001F, U+007F,
+   U+0080..U+009F) to '?'.  On the UTF-8 bytes of a name: a byte below 0x20 or equal to 0x7f, and the two-byte
+   sequences C2 80 .. C2 9F, become one '?'.  Applied by the plain printer to the whole line and by the
+   long/table printer to the name column; the rows printed are the same rows. *)
+Fixpoint hide_control (s : bytes) : bytes :=
+  match s with
+  | [] => []
+  | b :: r =>
+    if (b2n b <? 32) || (b2n b =? 127) then x3f :: hide_control r
+    else if b2n b =? 194 then
+      match r with
+      | b2 :: r2 => if (128 <=? b2n b2) && (b2n b2 <=? 159) then x3f :: hide_control r2 else b :: hide_control r
+      | [] => [b]
+      end
+    else b :: hide_control r
+  end.
+Definition display_q (classify : bool) (r : row) : bytes := hide_control (display classify r).
+Definition plain_output_q (classify : bool) (rs : list row) : bytes :=
+  concat (map (fun r => display_q classify r ++ [x0a]) rs).
 (* kind_char: hard links print as files *)
 Definition kind_char (k : N) : byte := match k with 1 => x64 | 2 => x6c | _ => x2e end.
 
